@@ -50,7 +50,9 @@ fn with_env(lam_cnt: usize, env: Env, term: Term<NamedDeBruijn>) -> Term<NamedDe
             if lam_cnt >= index {
                 Term::Var(name)
             } else {
-                env.get::<usize>(env.len() - (index - lam_cnt))
+                env.len()
+                    .checked_sub(index - lam_cnt)
+                    .and_then(|i| env.get::<usize>(i))
                     .cloned()
                     .map_or(Term::Var(name), value_as_term)
             }
